@@ -28,6 +28,12 @@ func init() {
 // exitByReturn: the driver function whose integer result main hands to os.Exit (nil when main does the work itself).
 var exitByReturn *ssa.Function
 
+// exitByErr is the error-returning driver (`if err := run(...); err != nil { ...; os.Exit(1) }`), driverCall main's call to it.
+var (
+	exitByErr  *ssa.Function
+	driverCall *ssa.Call
+)
+
 func isProcessStart(c ssa.CallInstruction) bool {
 	for _, n := range []string{"Cmd.Run", "Cmd.Start", "Cmd.Output", "Cmd.CombinedOutput"} {
 		if flow.CalleeIs(c, "os/exec", n) {
@@ -67,6 +73,41 @@ func runC15(e *Env) {
 				}
 				if only {
 					exitByReturn = d
+					mainFn = d
+				}
+			}
+		}
+	}
+	// `if err := run(...); err != nil { report; os.Exit(1) }`: the work is done by a driver that returns an error; main
+	// terminates with a non-zero status exactly when the driver fails, so inside the driver a return of a provably non-nil
+	// error counts as an exit
+	exitByErr = nil
+	if exitByReturn == nil {
+		hasStart := func(f *ssa.Function) bool {
+			for _, c := range flow.Calls(f) {
+				if isProcessStart(c) {
+					return true
+				}
+			}
+			return false
+		}
+		if !hasStart(mainFn) {
+			for _, c := range flow.Calls(mainFn) {
+				dc, ok := c.(*ssa.Call)
+				if !ok {
+					continue
+				}
+				d := flow.Callee(dc)
+				if d == nil || d.Pkg == nil || d.Pkg.Pkg.Path() != load.PkgSandbox || len(d.Blocks) == 0 || !hasStart(d) {
+					continue
+				}
+				n := d.Signature.Results().Len()
+				if n != 1 || !flow.IsErrorType(d.Signature.Results().At(0).Type()) {
+					continue
+				}
+				if failEdgeNoReturn(e, p, "E3.exit", "sandbox.main/"+load.FuncName(d)+"-failure", dc) {
+					exitByErr = d
+					driverCall = dc
 					mainFn = d
 				}
 			}
@@ -217,7 +258,16 @@ func runC15(e *Env) {
 				return true
 			}
 			if bi, ok := c.Call.Value.(*ssa.Builtin); ok && bi.Name() == "len" {
-				ac, ok := c.Call.Args[0].(*ssa.Call)
+				a0 := c.Call.Args[0]
+				// the driver's parameter that main fills with flag.Args()
+				if prm, isPrm := a0.(*ssa.Parameter); isPrm && driverCall != nil && prm.Parent() == exitByErr {
+					for k, q := range exitByErr.Params {
+						if q == prm && k < len(driverCall.Call.Args) {
+							a0 = driverCall.Call.Args[k]
+						}
+					}
+				}
+				ac, ok := a0.(*ssa.Call)
 				return ok && flow.CalleeIs(ac, "flag", "Args")
 			}
 			return false
@@ -507,6 +557,16 @@ func checkExitRegion(e *Env, p *load.Program, key string, from, fail *ssa.BasicB
 						continue
 					}
 					r.Bad("E3.exit", key+"/status", p.Pos(ret.Pos()), "the failure edge returns exit status 0 (or a non-constant)")
+					ok = false
+					continue
+				}
+				if exitByErr != nil && from.Parent() == exitByErr && len(flow.RetResults(ret)) == 1 {
+					// main exits non-zero when the driver returns an error
+					if flow.KnownNonNilError(flow.RetResults(ret)[0], b) {
+						exits++
+						continue
+					}
+					r.Bad("E3.exit", key+"/status", p.Pos(ret.Pos()), "the failure edge returns an error that is not provably non-nil: main would go on as if the step had succeeded")
 					ok = false
 					continue
 				}
